@@ -5,6 +5,8 @@ EXPLANATION = ("Bounded runtime contracts: ConfigLoader.fit on a tiny 3-body mod
                "of the statement are asserted on FitResult vs live model state vs a freshly built model loaded from the saved file.")
 ASSUMPTIONS = ["A-LIB: scipy.optimize.minimize / iminuit return a point x and f(x) as documented; convergence is not assumed"]
 
+EXPLANATION += (' Proved on symbolic values: the write-back primitives of a fit step (set_trans_var / set_all / set / get / get_all_val with a bounded parameter at any position; standard_complex with tie groups). Modular runtime contract: fit_scipy against scripted abstract minimisers (incl. the LargeNumberError exit).')
+
 from vt.contracts import iface_nll  # noqa: F401,E402
 from vt.contracts import fit_resolution  # noqa: F401,E402
 from vt.contracts import derivs  # noqa: F401,E402  (FCN / CombineFCN: the point passed is the point evaluated and stored)
